@@ -27,6 +27,8 @@ type Prog struct {
 	Fset   *token.FileSet
 	nfuncs int
 	allFns []*ssa.Function
+	cidx   *callIndex
+	imn    map[string]bool
 }
 
 var repoDir = "/repo"
@@ -75,7 +77,7 @@ func Load(goos string, overlay map[string][]byte, patterns ...string) (*Prog, er
 		}
 	}
 	for fn := range ssautil.AllFunctions(prog) {
-		if fn.Blocks != nil && p.firstParty(fn) {
+		if fn.Blocks != nil && fn.Synthetic == "" && p.firstParty(fn) {
 			p.allFns = append(p.allFns, fn)
 		}
 	}
